@@ -24,7 +24,8 @@ the message, exit status 2):
           | await X.checkpoint_if_cancelled() | AWAIT | try: AWAIT except CancelledError: block
   AWAIT ::= await X.cancel_shielded_checkpoint() | await FUT     (each once; not in a loop / handler / sync method)
 Statements after a return/raise/continue in the same block are refused.  __init__ must set _fast_acquire from its
-argument, _owner_task = None, _waiters = deque().  locked() must be `return cond`.
+argument, _owner_task = None, _waiters = deque().  locked() must be `return cond`.  The class may define no other method than these, __new__ (plain object.__new__)
+and statistics() (read-only observer used by the harness; not translated).
 """
 from __future__ import annotations
 
@@ -295,6 +296,9 @@ def translate():
             if n.name in fns or n.decorator_list:
                 refuse("class Lock", n, "duplicate or decorated method")
             fns[n.name] = n
+    extra = set(fns) - {"__new__", "__init__", "acquire", "acquire_nowait", "locked", "release", "statistics"}
+    if extra or ("__new__" in fns and ast.unparse(fns["__new__"].body[-1]) != "return object.__new__(cls)"):
+        raise Refuse(f"class Lock: unexpected method(s) {sorted(extra) or ['__new__ body']}")
     for need, is_async in (("__init__", False), ("acquire", True), ("acquire_nowait", False), ("release", False), ("locked", False)):
         if need not in fns or isinstance(fns[need], ast.AsyncFunctionDef) != is_async:
             raise Refuse(f"class Lock: method {need} missing or of the wrong kind (async={is_async})")
